@@ -51,7 +51,9 @@ ASSUMPTIONS = [
 ]
 BUDGET_S = {"quick": 230, "thorough": 1700}
 JOB_SIZE = {"quick": 400, "thorough": 1000}
-OPTIONAL_CFGS = ["md-sh224", "md-sh384", "md-sh512", "p381-map-swift"]
+# pf-377: B12_P377, a BLS12 curve whose parameter is POSITIVE and fits one digit (the 381-bit one is negative): the sign
+# handling of the cofactor clearing by 1 - x differs
+OPTIONAL_CFGS = ["md-sh224", "md-sh384", "md-sh512", "p381-map-swift", "pf-377"]
 
 # Hypothesis produces the all-zero draw far more often than 2^-n: the 'uniform' classes are shifted by a fixed
 # constant so that such draws do not collapse into the 'zero' class (still a bijection of the draw space)
@@ -1323,14 +1325,14 @@ MD = ["md-sh224", "md-sh384", "md-sh512"]
 _SPECS = [
     ("ep-rnd", strat_ep_rnd, run_ep_rnd,
      {"quick": ["base256", "map-swift"],
-      "thorough": ["base256", "map-swift", "map-basic", "p255", "p381", "p381-map-swift", "ep-jacob", "ep-basic"]},
+      "thorough": ["base256", "map-swift", "map-basic", "p255", "p381", "p381-map-swift", "ep-jacob", "ep-basic", "pf-377"]},
      12000, 40000, None),
     ("ep-msg", strat_ep_msg, run_ep_msg,
-     {"quick": ["base256"], "thorough": ["base256", "p255", "p381", "ep-jacob", "ep-basic"] + MD}, 16000, 40000, None),
+     {"quick": ["base256"], "thorough": ["base256", "p255", "p381", "ep-jacob", "ep-basic", "pf-377"] + MD}, 16000, 40000, None),
     ("ep2-msg", strat_ep2_msg, run_ep2_msg, {"quick": ["base256"], "thorough": ["base256", "p381", "md-sh512"]},
      4000, 15000, _has_pc),
     ("ed-msg", strat_ed, run_ed, {"quick": ["p255"], "thorough": ["p255", "p255-extnd", "p255-basic"]}, 5000, 15000, _has_ed),
-    ("ep-cof", strat_ep_cof, run_ep_cof, {"quick": ["base256"], "thorough": ["base256", "p255", "p381"]}, 1200, 6000, None),
+    ("ep-cof", strat_ep_cof, run_ep_cof, {"quick": ["base256"], "thorough": ["base256", "p255", "p381", "pf-377"]}, 1200, 6000, None),
     ("eb-msg", strat_eb, run_eb, {"quick": ["base256"], "thorough": ["base256", "fb-163", "fb-233", "md-sh512"]},
      2000, 5000, _has_eb),
 ]
